@@ -20,6 +20,10 @@ HARNESS = VERIF / "harness"
 REPO = Path(os.environ.get("VERIF_REPO", "/repo"))
 PY = os.environ.get("VERIF_PY", "/venv/bin/python")
 WORK_ROOT = Path(os.environ.get("VERIF_TMP", str(VERIF / ".work")))
+# runs against a scratch copy (mutant testing) must never overwrite the committed evidence / replays
+ALT = str(REPO) != "/repo"
+EVID_DIR = (WORK_ROOT / "alt_evidence") if ALT else (VERIF / "evidence")
+REPLAY_DIR = (WORK_ROOT / "alt_replays") if ALT else (VERIF / "replays")
 NCPU = int(os.environ.get("VERIF_WORKERS", str(os.cpu_count() or 4)))
 TLA_CP = "/opt/veriftools/tla/tla2tools.jar:/opt/veriftools/tla/CommunityModules-deps.jar"
 
@@ -395,7 +399,7 @@ class Check:
         self.seed = seed
         self.level = level
         self.t0 = time.time()
-        self.wd = workdir(prop)
+        self.wd = workdir(prop + ("_alt%d" % os.getpid() if ALT else ""))
         self.violations: list[dict] = []
         self.known_hits: list[tuple[dict, dict]] = []
         self.states = 0
@@ -412,8 +416,8 @@ class Check:
         self.exhaustive = False
         self._known = load_known_findings(prop)
         self._n_replays = 0
-        rd = VERIF / "replays"
-        rd.mkdir(exist_ok=True)
+        rd = REPLAY_DIR
+        rd.mkdir(parents=True, exist_ok=True)
         for old in rd.glob(f"{prop}-*.json"):
             old.unlink()
 
@@ -456,8 +460,8 @@ class Check:
     MAX_REPLAYS = 8
 
     def write_replay(self, obj: dict) -> Path:
-        d = VERIF / "replays"
-        d.mkdir(exist_ok=True)
+        d = REPLAY_DIR
+        d.mkdir(parents=True, exist_ok=True)
         self._n_replays += 1
         p = d / f"{self.prop}-{self.seed}-{min(self._n_replays, self.MAX_REPLAYS)}.json"
         if self._n_replays > self.MAX_REPLAYS:   # keep the first few replay files, count the rest
@@ -508,8 +512,8 @@ class Check:
         problems = validate_evidence(ev)
         if problems:
             raise MachineryError("evidence would not validate: " + "; ".join(problems))
-        (VERIF / "evidence").mkdir(exist_ok=True)
-        (VERIF / "evidence" / f"{self.prop}.json").write_text(json.dumps(ev, indent=1, default=str))
+        EVID_DIR.mkdir(parents=True, exist_ok=True)
+        (EVID_DIR / f"{self.prop}.json").write_text(json.dumps(ev, indent=1, default=str))
         seen = set()
         for f, rec in self.known_hits:
             if f["id"] in seen:
